@@ -35,11 +35,14 @@ def dumpRaw : Raw → String
   | .strs ss => s!"S:{joinOr "," (ss.map hexB)}"
   | .dates sc ds =>
     -- with the century the two-digit year stands for (69..99 are 19yy, 00..68 are 20yy)
-    let century (d : Bytes) : Bytes :=
+    let withYear (d : Bytes) : Bytes :=
       match d with
-      | y0 :: y1 :: _ => if (y0.toNat - 48) * 10 + (y1.toNat - 48) ≥ 69 then [49, 57] else [50, 48]
-      | _ => []
-    s!"d{sv sc}:{joinOr "," (ds.map fun d => hexB (century d ++ d))}"
+      | y0 :: y1 :: rest =>
+        match twoDigitYear y0 y1 with
+        | some yy => (toString (fullYear yy)).toUTF8.toList ++ rest
+        | none => d
+      | _ => d
+    s!"d{sv sc}:{joinOr "," (ds.map fun d => hexB (withYear d))}"
 
 def dumpSamples (ss : List (List Float)) : String :=
   joinOr "," (ss.map fun s => String.intercalate "." (s.map hexOfFloat))
